@@ -442,6 +442,9 @@ func main() {
 	quick := r.Quick()
 	var scs []scenario
 	for _, l := range layouts(quick) {
+		if o := os.Getenv("C10_ONLY"); o != "" && !strings.HasPrefix(l.name, o) {
+			continue
+		}
 		st, err := build(l)
 		if err != nil {
 			r.HarnessError("%v", err)
